@@ -256,6 +256,11 @@ int tls13_send(TLS_CONNECT *conn, const uint8_t *data, size_t datalen, size_t *s
 		seq_num = conn->server_seq_num;
 	}
 
+	// one record carries at most 2^14 bytes, the caller gets the accepted length in *sentlen (as in tls_send)
+	if (datalen > TLS_MAX_PLAINTEXT_SIZE) {
+		datalen = TLS_MAX_PLAINTEXT_SIZE;
+	}
+
 	if (tls13_gcm_encrypt(key, iv,
 		seq_num, TLS_record_application_data, data, datalen, padding_len,
 		record + 5, &recordlen) != 1) {
@@ -270,7 +275,10 @@ int tls13_send(TLS_CONNECT *conn, const uint8_t *data, size_t datalen, size_t *s
 	record[4] = (uint8_t)(recordlen);
 	recordlen += 5;
 
-	tls_record_send(record, recordlen, conn->sock);
+	if (tls_record_send(record, recordlen, conn->sock) != 1) {
+		error_print();
+		return -1;
+	}
 	tls_record_trace(stderr, record, tls_record_length(record), 0, 0);
 
 	tls_seq_num_incr(seq_num);
